@@ -88,6 +88,10 @@ class Gen:
         self.visible = []  # (kind, name, metavar, help or None)
         self.absent = []  # strings that must not be listed
         self.groups = []
+        # nested command levels (used by C16's generated-document jobs; `nest` = 0 keeps commands flat)
+        self.nest = 0
+        self.path = ()
+        self.levels = {(): {"visible": self.visible, "absent": self.absent, "hidden": []}}
 
     def doc(self, text):
         L = self.L
@@ -134,11 +138,22 @@ class Gen:
             rec = ("pos", "POS%d" % k, None, "help-%d" % k if has_help else None)
         else:
             info = self.ex.info_default
-            it = mk("Command", name="cmd%d" % k, short=NONE, help=help_, meta=Adt("Meta", L.variant_index("Meta", "Skip"), ()), info=info)
+            sub = Adt("Meta", L.variant_index("Meta", "Skip"), ())
+            if self.nest > 0 and not hidden:
+                # the command's own level: a generated subtree recorded under its path
+                self.nest -= 1
+                saved = (self.path, self.visible, self.absent)
+                self.path = self.path + ("cmd%d" % k,)
+                self.visible, self.absent = [], []
+                self.levels[self.path] = {"visible": self.visible, "absent": self.absent, "hidden": []}
+                sub = self.tree(1)
+                self.path, self.visible, self.absent = saved
+            it = mk("Command", name="cmd%d" % k, short=NONE, help=help_, meta=sub, info=info)
             rec = ("cmd", "cmd%d" % k, None, "help-%d" % k if has_help else None)
         rec = rec + (in_adjacent,)
         if hidden:
             self.absent.append(rec[1])
+            self.levels[self.path]["hidden"].append(rec[1])
         elif rec[0] == "pos" and not has_help and not in_adjacent:
             self.absent.append(rec[1])
         else:
@@ -252,7 +267,9 @@ def run_tree_job(job, build):
             def names_of(ln):
                 return ln.replace("=", " ").replace(",", " ").split()
             item_lines = [ln for ln in lines if ln.startswith("    ") and name in names_of(ln)[:3]]
-            header_lines = [ln for ln in lines if ln.startswith("  ") and not ln.startswith("    ") and name in names_of(ln)]
+            # the usage line of an adjacent group is written with the *short* name of an item that has both
+            alt = ("-" + chr(ord("a") + int(name[5:]))) if kind == "arg" else name
+            header_lines = [ln for ln in lines if ln.startswith("  ") and not ln.startswith("    ") and (name in names_of(ln) or alt in names_of(ln))]
             if adj and not hlp:
                 # inside an adjacent group an undocumented member is shown in the group's usage line only
                 if len(item_lines) + len(header_lines) < 1:
